@@ -10,7 +10,7 @@ CLAIMED = {
          'Decides clauses R03.*; does not decide event-sequence equality for all inputs. Trusted: clang 14 Sema, the fact plugin, the Python analysers.',
          'DESIGN.md §4 C03'),
  'C10': ('CFG dominance + interprocedural call-site search for nesting-limit guards; exactness of the comparison shape',
-         'Static rule check: every container-open emission in the five decoders, the CBOR typed-array iterators and the TOON reader, and every encoder open, is dominated by an exact nesting-limit comparison whose failing edge stores the error and returns. Quantifies over code sites (all paths that open a container), which no depth test sample does.',
+         'Static rule check: every container-open emission in the five decoders, the CBOR typed-array iterators and the TOON reader, and every encoder open, is dominated by an exact nesting-limit comparison whose failing edge stores the error and returns. Quantifies over code sites (all paths that open a container), which no depth test sample does. Also: every increment of a nesting counter by an open is matched by exactly one decrement in the close (R10.7).',
          'Decides clauses R10.*; does not decide stack bytes per level or memory proportionality as numbers. Known findings F9 (CBOR typed arrays) and F16 (TOON) are reported as KNOWN-FINDING.',
          'DESIGN.md §4 C10'),
  'C07': ('partial evaluation (constant propagation of the initial byte through the dispatch code) and comparison of the per-byte guarded-effect table with the specification table',
